@@ -7,6 +7,7 @@ import (
 	"regexp"
 	"strconv"
 	"strings"
+	"syscall"
 
 	"github.com/shopspring/decimal"
 	"github.com/tyler-sommer/stick"
@@ -113,6 +114,21 @@ func carriers(n int64) []gen.Named {
 	add("decimal.Decimal", decimal.NewFromInt(n))
 	if exact64 && n > -1000000 && n < 1000000 {
 		add("Number implementer", gen.ValNumber{N: float64(n)})
+	}
+	// ... and defined types that are errors or have their own idea of how fmt prints them
+	add("defined type on int with an Error method", gen.ErrInt(n))
+	add("defined type on int64 with a Format method", gen.FmtInt(n))
+	if n >= math.MinInt32 && n <= math.MaxInt32 {
+		add("defined type on int32 with a GoString method", gen.GoStrI(n))
+	}
+	if n >= 0 && n <= math.MaxUint8 {
+		add("defined type on uint8 with an Error method", gen.ErrU8(n))
+	}
+	if n >= 0 {
+		add("syscall.Errno", syscall.Errno(n))
+	}
+	if exact64 {
+		add("defined type on float64 with an Error method", gen.ErrF64(n))
 	}
 	// defined types (type Level int) are Go numeric types as well
 	add("defined type on int", gen.KeyInt(n))
@@ -225,6 +241,15 @@ func (p *c15) Run(i int) (res fw.Result) {
 			res.Evals += 3
 			if us != s || !sameNum(uf, f) || ub != b {
 				res.Fail("safe-wrapper", key+":user", fmt.Sprintf("%d-level user-written safe wrapper around %s coerces to (%q, %v, %v), the bare value to (%q, %v, %v)", lvl, z.Label, us, uf, ub, s, f, b), nil)
+			}
+		}
+		// ... and through one that has String, Number and Boolean methods of its own: what it wraps decides
+		{
+			o := gen.OpinionatedSafe{Inner: z.V}
+			os, of, ob := stick.CoerceString(o), stick.CoerceNumber(o), stick.CoerceBool(o)
+			res.Evals += 3
+			if os != s || !sameNum(of, f) || ob != b {
+				res.Fail("safe-wrapper", key+":opinionated", fmt.Sprintf("a user-written safe wrapper with String / Number / Boolean methods of its own around %s coerces to (%q, %v, %v), the bare value to (%q, %v, %v)", z.Label, os, of, ob, s, f, b), nil)
 			}
 		}
 		switch v := z.V.(type) {
